@@ -111,6 +111,20 @@ def run(chk):
         spec = '%s+%s+%s' % (encgen.block_spec(pre, []), encgen.block_spec(b1, [(nl, nl, len(b1) - nl)]), encgen.block_spec(b2, []))
         lines.append('rencm 1 131072 %s' % spec)
         datas.append(([pre + b1 + b2], 131072))
+    # exact sequence counts at the boundaries of the three forms of the sequence-count field
+    for cnt in ((126, 127, 128, 129, 255, 256, 257, 32511, 32512, 32513) if thorough else (127, 128, 129, 256)):
+        h0 = rng.bytes(64)
+        cur = bytearray()
+        seqs = []
+        for j in range(cnt):
+            ll = 1 if cnt < 1000 else rng.choice([0, 1])
+            cur += rng.bytes(ll)
+            whole = h0 + bytes(cur)
+            off = rng.range(1, min(len(whole), 60))
+            cur += encgen.fast_copy(whole, off, 3)
+            seqs.append((ll, off, 3))
+        lines.append('rencm 1 131072 %s+%s' % (encgen.block_spec(h0, []), encgen.block_spec(bytes(cur), seqs)))
+        datas.append(([h0 + bytes(cur)], 131072))
     # offset codes with a flat histogram over many codes plus one rare code (the normalised counts then exceed the
     # largest table the format allows for offsets and must be scaled down)
     for i in range(24 if thorough else 8):
